@@ -372,6 +372,20 @@ class _DropAnn(ast.NodeTransformer):
         return n
 
 
+    def visit_Return(self, n):
+        # return {.. for a in A for b in B}  ->  _collected = {..}; return _collected   (and then as for assignments)
+        if self.depth > 0 and isinstance(n.value, (ast.SetComp, ast.ListComp, ast.DictComp)) and len(n.value.generators) >= 2 \
+                and not any(g.is_async for g in n.value.generators) \
+                and not any(isinstance(y, ast.Name) and y.id == "_collected" for y in ast.walk(n.value)):
+            asg = ast.copy_location(ast.Assign([ast.Name("_collected", ast.Store())], n.value), n)
+            ast.fix_missing_locations(asg)
+            out = self.visit_Assign(asg)
+            ret = ast.copy_location(ast.Return(ast.Name("_collected", ast.Load())), n)
+            ast.fix_missing_locations(ret)
+            return (out if isinstance(out, list) else [out]) + [ret]
+        self.generic_visit(n)
+        return n
+
     def visit_Assign(self, n):
         self.generic_visit(n)
         # label = "a" if c else "b"   ->   if c: label = "a"  else: label = "b"      (two constant texts chosen by a test)
@@ -384,16 +398,19 @@ class _DropAnn(ast.NodeTransformer):
             return new
         # X = {e for a in A for b in B ..}  ->  X = set(); for a in A: for b in B: .. X.add(e)    (several generators)
         if self.depth > 0 and len(n.targets) == 1 and isinstance(n.targets[0], ast.Name) \
-                and isinstance(n.value, (ast.SetComp, ast.ListComp)) and len(n.value.generators) >= 2 \
+                and isinstance(n.value, (ast.SetComp, ast.ListComp, ast.DictComp)) and len(n.value.generators) >= 2 \
                 and not any(g.is_async for g in n.value.generators):
             X = n.targets[0].id
             if not any(isinstance(y, ast.Name) and y.id == X for y in ast.walk(n.value)):
                 meth = "add" if isinstance(n.value, ast.SetComp) else "append"
-                init = ast.Assign([ast.Name(X, ast.Store())], ast.Call(ast.Name("set", ast.Load()), [], [])
-                                  if meth == "add" else ast.List([], ast.Load()))
+                init = ast.Assign([ast.Name(X, ast.Store())], ast.Dict([], []) if isinstance(n.value, ast.DictComp)
+                                  else ast.Call(ast.Name("set", ast.Load()), [], []) if meth == "add" else ast.List([], ast.Load()))
                 self.cc = getattr(self, "cc", [0])
-                out = [init] + _lower_comp(n.value, lambda e: ast.Expr(ast.Call(ast.Attribute(ast.Name(X, ast.Load()), meth, ast.Load()),
-                                                                              [e], [])), self.cc)
+                if isinstance(n.value, ast.DictComp):
+                    emit = lambda kv: ast.Assign([ast.Subscript(ast.Name(X, ast.Load()), kv[0], ast.Store())], kv[1])  # noqa: E731
+                else:
+                    emit = lambda e: ast.Expr(ast.Call(ast.Attribute(ast.Name(X, ast.Load()), meth, ast.Load()), [e], []))  # noqa: E731
+                out = [init] + _lower_comp(n.value, emit, self.cc)
                 for st in out:
                     ast.copy_location(st, n)
                     ast.fix_missing_locations(st)
@@ -562,7 +579,52 @@ def _count(what: str, n) -> None:
         LOCAL_REWRITES[what] = LOCAL_REWRITES.get(what, 0) + n
 
 
+def _inline_local_constant_tuples(fn: ast.FunctionDef) -> int:
+    """`values = (0, 1)` (bound once to a short tuple/list of constants, never mutated: read only as the iterable of loops /
+    comprehensions or on the right of `in`): the name is the literal."""
+    import copy as _copy
+    stores: dict[str, int] = {}
+    for n in ast.walk(fn):
+        if isinstance(n, ast.Name) and isinstance(n.ctx, (ast.Store, ast.Del)):
+            stores[n.id] = stores.get(n.id, 0) + 1
+        if isinstance(n, (ast.Global, ast.Nonlocal)):
+            return 0
+    params = {a.arg for a in fn.args.posonlyargs + fn.args.args + fn.args.kwonlyargs}
+    count = 0
+    for i, st in enumerate(fn.body):
+        if not (isinstance(st, (ast.Assign, ast.AnnAssign)) and getattr(st, "value", None) is not None):
+            continue
+        tg = st.targets[0] if isinstance(st, ast.Assign) and len(st.targets) == 1 else st.target if isinstance(st, ast.AnnAssign) else None
+        v = st.value
+        if not (isinstance(tg, ast.Name) and stores.get(tg.id) == 1 and tg.id not in params and isinstance(v, (ast.Tuple, ast.List))
+                and 1 <= len(v.elts) <= 4 and all(isinstance(e, ast.Constant) for e in v.elts)):
+            continue
+        a = tg.id
+        uses = [y for r in fn.body for y in ast.walk(r) if isinstance(y, ast.Name) and y.id == a and isinstance(y.ctx, ast.Load)]
+        iters = {id(x.iter) for r in fn.body for x in ast.walk(r) if isinstance(x, (ast.For, ast.comprehension))}
+        ins = {id(c.comparators[0]) for r in fn.body for c in ast.walk(r) if isinstance(c, ast.Compare) and len(c.ops) == 1
+               and isinstance(c.ops[0], (ast.In, ast.NotIn))}
+        if not uses or not all(id(u) in iters or id(u) in ins for u in uses):
+            continue
+
+        class RN(ast.NodeTransformer):
+            def visit_Name(self, n_):
+                if n_.id == a and isinstance(n_.ctx, ast.Load):
+                    return ast.copy_location(ast.Tuple([_copy.deepcopy(e) for e in v.elts], ast.Load()), n_)
+                return n_
+        for k in range(i + 1, len(fn.body)):
+            fn.body[k] = RN().visit(fn.body[k])
+        fn.body[i] = ast.copy_location(ast.Pass(), st)
+        count += 1
+    if count:
+        ast.fix_missing_locations(fn)
+    return count
+
+
 def _drop_local_annotations(tree: ast.Module) -> None:
+    for x in ast.walk(tree):
+        if isinstance(x, ast.FunctionDef):
+            _count("local_constant_tuples", _inline_local_constant_tuples(x))
     _DropAnn().visit(tree)
     # loops over short literal sequences are unrolled (`for v in (0, 1): ...`, `for bdd, up in ((p, True), (n, False)): ...`)
     from . import peval
@@ -580,6 +642,10 @@ def _drop_local_annotations(tree: ast.Module) -> None:
                 unroll_in(st.body)
                 unroll_in(getattr(st, "orelse", []))
     unroll_in(tree.body)
+    for x in ast.walk(tree):
+        if isinstance(x, ast.FunctionDef):
+            _count("dag_view_aliases", _inline_dag_view_aliases(x))
+            _count("quantifiers_over_literal_tuples", _unroll_literal_quantifiers(x))
     for x in ast.walk(tree):
         if isinstance(x, ast.ClassDef):
             for y in x.body:
@@ -600,6 +666,90 @@ def _drop_local_annotations(tree: ast.Module) -> None:
             _count("length_shadows", _drop_length_shadows(x))
             _count("named_conditions_inlined", _inline_flag_locals(x))
             _count("memo_tables_dissolved", len(memo.dissolve(x)))
+
+
+def _unroll_literal_quantifiers(fn: ast.AST) -> int:
+    """any(E(t) for t in (a, b))  ->  E(a) or E(b);  all(...)  ->  and  (a literal tuple/list of at most four plain names or
+    constants, one generator without filter; evaluation order and short-circuiting are the same)."""
+    import copy as _copy
+    count = [0]
+
+    class Q(ast.NodeTransformer):
+        def visit_Call(self, n):
+            self.generic_visit(n)
+            if isinstance(n.func, ast.Name) and n.func.id in ("any", "all") and len(n.args) == 1 and not n.keywords \
+                    and isinstance(n.args[0], (ast.GeneratorExp, ast.ListComp)) and len(n.args[0].generators) == 1:
+                g = n.args[0].generators[0]
+                if not g.ifs and not g.is_async and isinstance(g.target, ast.Name) and isinstance(g.iter, (ast.Tuple, ast.List)) \
+                        and 1 <= len(g.iter.elts) <= 4 and all(isinstance(e, (ast.Name, ast.Constant)) for e in g.iter.elts) \
+                        and not any(isinstance(y, (ast.NamedExpr, ast.Lambda, ast.GeneratorExp, ast.ListComp, ast.SetComp, ast.DictComp))
+                                    for y in ast.walk(n.args[0].elt)):
+                    t = g.target.id
+
+                    def inst(e):
+                        class S(ast.NodeTransformer):
+                            def visit_Name(self, x):
+                                return ast.copy_location(_copy.deepcopy(e), x) if x.id == t and isinstance(x.ctx, ast.Load) else x
+                        return S().visit(_copy.deepcopy(n.args[0].elt))
+                    vals = [inst(e) for e in g.iter.elts]
+                    out = vals[0] if len(vals) == 1 else ast.BoolOp(ast.Or() if n.func.id == "any" else ast.And(), vals)
+                    if len(vals) == 1:
+                        out = ast.Call(ast.Name("bool", ast.Load()), [out], [])
+                    for y in ast.walk(out):
+                        ast.copy_location(y, n)
+                    count[0] += 1
+                    return out
+            return n
+    Q().visit(fn)
+    if count[0]:
+        ast.fix_missing_locations(fn)
+    return count[0]
+
+
+def _inline_dag_view_aliases(fn: ast.FunctionDef) -> int:
+    """`nodes = self.dag.nodes` / `edges = sd.dag.edges` / `dag = sd.dag` (bound once, at the top level of the function, from
+    a parameter that is never re-bound; `.dag` is never assigned in the function): the local is the view it names."""
+    params = {a.arg for a in fn.args.posonlyargs + fn.args.args + fn.args.kwonlyargs}
+    stores: dict[str, int] = {}
+    for n in ast.walk(fn):
+        if isinstance(n, ast.Name) and isinstance(n.ctx, (ast.Store, ast.Del)):
+            stores[n.id] = stores.get(n.id, 0) + 1
+        if isinstance(n, (ast.Global, ast.Nonlocal)):
+            return 0
+        if isinstance(n, ast.Attribute) and isinstance(n.ctx, (ast.Store, ast.Del)) and n.attr == "dag":
+            return 0
+    count = 0
+    for i, st in enumerate(fn.body):
+        if not (isinstance(st, ast.Assign) and len(st.targets) == 1 and isinstance(st.targets[0], ast.Name)):
+            continue
+        a, v = st.targets[0].id, st.value
+        if stores.get(a) != 1 or a in params:
+            continue
+        chain = []
+        e = v
+        while isinstance(e, ast.Attribute):
+            chain.append(e.attr)
+            e = e.value
+        chain.reverse()
+        if not (isinstance(e, ast.Name) and e.id in params and stores.get(e.id, 0) == 0 and chain in (["dag"], ["dag", "nodes"], ["dag", "edges"])):
+            continue
+        if any(isinstance(y, (ast.FunctionDef, ast.Lambda)) and any(isinstance(z, ast.Name) and z.id == a for z in ast.walk(y))
+               for r in fn.body[i + 1:] for y in ast.walk(r)):
+            continue
+        import copy as _copy
+
+        class RN(ast.NodeTransformer):
+            def visit_Name(self, n_):
+                if n_.id == a and isinstance(n_.ctx, ast.Load):
+                    return ast.copy_location(_copy.deepcopy(v), n_)
+                return n_
+        for k in range(i + 1, len(fn.body)):
+            fn.body[k] = RN().visit(fn.body[k])
+        fn.body[i] = ast.copy_location(ast.Pass(), st)
+        count += 1
+    if count:
+        ast.fix_missing_locations(fn)
+    return count
 
 
 _MUTATORS = {"append", "extend", "add", "remove", "discard", "pop", "clear", "sort", "update", "insert", "reverse", "popleft",
@@ -755,7 +905,7 @@ def _worklist_to_recursion(fn: ast.FunctionDef, in_class: bool) -> bool:
     params = [a.arg for a in fn.args.posonlyargs + fn.args.args]
     if fn.args.vararg or fn.args.kwarg or fn.args.kwonlyargs or fn.decorator_list:
         return False
-    body = list(fn.body)
+    body = [s_ for s_ in fn.body if not isinstance(s_, ast.Pass)]
     i = 0
     while i < len(body) and (isinstance(body[i], ast.Assert) or isinstance(body[i], ast.Expr) and isinstance(body[i].value, ast.Constant)):
         i += 1
